@@ -53,6 +53,8 @@ def expr_of_operand(fn, o, depth=0, seen=None, at=None):
             if pf is not None:
                 return expr_of_local(pf, 0, depth + 1, None)
         if "v" in o:
+            if o.get("ty") == "bool" and o["v"] in (0, 1):
+                return E("const", bool(o["v"]), o.get("name"))
             return E("const", o["v"], o.get("name"))
         if "fn" in o:
             return E("fnitem", o["fn"], o.get("fn_key"))
